@@ -324,7 +324,9 @@ func c13ServiceExec(c *core.Ctx, in c13Service) {
 	shared := false
 	pi := core.Try(func() {
 		var ok bool
-		enc, ok = scribbleRecall(func() []byte { return nasConvert.PartialServiceAreaListToNas(models.PlmnId{Mcc: in.Mcc, Mnc: in.Mnc}, r) })
+		enc, ok = scribbleRecall(func() []byte {
+			return nasConvert.PartialServiceAreaListToNas(models.PlmnId{Mcc: in.Mcc, Mnc: in.Mnc}, r)
+		})
 		shared = !ok
 	})
 	if pi == nil && shared {
@@ -700,7 +702,7 @@ func init() {
 			if tier == "thorough" {
 				n, t = "8", "6"
 			}
-			return "all 256 SST x 6 SD values; all requested-NSSAI lists of 1.." + n + " entries over a 5-entry alphabet covering every legal S-NSSAI length (1,2,4,5,8); every declared entry length 0..255 at every position of a 3-entry list with truncated tails (error half); rejected NSSAI with 0..4 entries per cause; all TAI lists of 1.." + t + " entries over an 8-entry alphabet (6 PLMNs: same, same MCC, same MNC, both different, and 2- vs 3-digit MNCs with equal numeric value) and 7..16 entries with every single-position deviation; service-area lists of 1..16 TACs in every composition over 1..3 areas, both restriction types; LADN entries and LADN-indication lists. Oracle: reference decoders/encoders written from TS 24.501 9.11.2.8, 9.11.3.37, 9.11.3.46, 9.11.3.9, 9.11.3.49, 9.11.3.29/30 (refconv) must recover exactly the input lists from the library's encoders, and the library's decoders must recover reference-encoded lists."
+			return "all 256 SST x 6 SD values; all requested-NSSAI lists of 1.." + n + " entries over a 5-entry alphabet covering every legal S-NSSAI length (1,2,4,5,8); every declared entry length 0..255 at every position of a 3-entry list with truncated tails (error half); rejected NSSAI with 0..4 entries per cause; all TAI lists of 1.." + t + " entries over an 8-entry alphabet (6 PLMNs: same, same MCC, same MNC, both different, and 2- vs 3-digit MNCs with equal numeric value) and 7..16 entries with every single-position deviation; service-area lists of 1..16 TACs in every composition over 1..3 areas, both restriction types; LADN entries and LADN-indication lists. Oracle: reference decoders/encoders written from TS 24.501 9.11.2.8, 9.11.3.37, 9.11.3.46, 9.11.3.9, 9.11.3.49, 9.11.3.29/30 (refconv) must recover exactly the input lists from the library's encoders, and the library's decoders must recover reference-encoded lists. Sequences: all ordered pairs (and a-b-a triples) of S-NSSAI conversions over 3 SSTs x 6 SDs run first in every worker — each conversion must give the octets of its own arguments whatever was converted before. LADN indication contents are handed over inside a guarded buffer (sub-slice with spare capacity and canaries) that must be unchanged afterwards."
 		},
 		Assumptions: []string{"the DNN inside LADN is treated as opaque octets (only the length framing is asserted)"},
 		Finish:      finishDistinct("distinct by list kind and contents; non-trivial = lists with at least two entries / areas, S-NSSAIs with an SD, LADNs with a non-empty DNN, raw contents of at least three octets"),
